@@ -53,7 +53,9 @@ mutual
       list of a type variable -/
   def basics : Ty → List Ty
     | .node l ks =>
-      if l.kind == .prim then [.node l ks] else if isInnerL l then basicsList ks else []
+      match l with
+      | .prim _ => [.node l ks]
+      | _ => if isInnerL l then basicsList ks else []
   def basicsList : List Ty → List Ty
     | [] => []
     | t :: ts => basics t ++ basicsList ts
@@ -81,7 +83,10 @@ mutual
     | t :: ts => unify n v t :: unifyList n v ts
 end
 
-def isSumOrFixed (o : Ty) : Bool := o.label.kind == .sum || o.label.kind == .fpoly
+def isSumOrFixed (o : Ty) : Bool :=
+  match o.label with
+  | .sum | .fpoly _ => true
+  | _ => false
 
 mutual
   /-- `o.is_instance(x)` for a type `x`, i.e. `x.__arg_is_a__(o)`
@@ -89,17 +94,17 @@ mutual
       228-231 FixedPolymorphicType; 294-298 Sum; 387-392 Arrow; 493-498 Generic) -/
   def isInst (o : Ty) : Ty → Bool
     | .node l ks =>
-      match l.kind with
-      | .prim | .unknown => o == .node l ks
-      | .poly => true
-      | .fpoly | .sum =>
+      match l with
+      | .prim _ | .unknown => o == .node l ks
+      | .poly _ => true
+      | .fpoly _ | .sum =>
         if isSumOrFixed o then o.kids.all (fun x => anyInst x ks) else anyInst o ks
       | .arrow =>
         match ks, o with
-        | [a, b], .node ⟨.arrow, _⟩ [oa, ob] => isInst oa a && isInst ob b
+        | [a, b], .node .arrow [oa, ob] => isInst oa a && isInst ob b
         | _, _ => false
-      | .generic =>
-        o.label.kind == .generic && o.label.name == l.name && o.kids.all (fun tt => anyInst tt ks)
+      | .generic n =>
+        o.label == .generic n && o.kids.all (fun tt => anyInst tt ks)
   def anyInst (o : Ty) : List Ty → Bool
     | [] => false
     | t :: ts => isInst o t || anyInst o ts
@@ -107,18 +112,19 @@ end
 
 /-- `q.can_be(o)` for a type variable `q` (type_system.py:202-206 True; 236-239 restricted) -/
 def canBe (q o : Ty) : Bool :=
-  if q.label.kind == .fpoly then
-    (if isSumOrFixed o then o.kids.all (fun x => anyInst x q.kids) else anyInst o q.kids)
-  else true
+  match q.label with
+  | .fpoly _ =>
+    if isSumOrFixed o then o.kids.all (fun x => anyInst x q.kids) else anyInst o q.kids
+  | _ => true
 
 mutual
   /-- `all_versions` (type_system.py:87-92 default `[self]`; 288-292 Sum: concatenation;
       380-383 Arrow and 480-487 Generic: product of the components' versions) -/
   def versions : Ty → List Ty
     | .node l ks =>
-      match l.kind with
+      match l with
       | .sum => versionsCat ks
-      | .arrow | .generic => (product (versionsEach ks)).map (.node l)
+      | .arrow | .generic _ => (product (versionsEach ks)).map (.node l)
       | _ => [.node l ks]
   def versionsCat : List Ty → List Ty
     | [] => []
@@ -132,11 +138,11 @@ end
     branch: an argument that is itself a function *returning* unit is replaced by that
     function's argument type (finding C14-F4). -/
 def withoutUnit : Ty → Ty
-  | .node ⟨.arrow, _⟩ [a, b] =>
+  | .node .arrow [a, b] =>
     let out := withoutUnit b
     if a = Ty.unit then out
     else match a with
-      | .node ⟨.arrow, _⟩ [x, y] => if y = Ty.unit then Ty.arrow x out else Ty.arrow a out
+      | .node .arrow [x, y] => if y = Ty.unit then Ty.arrow x out else Ty.arrow a out
       | _ => Ty.arrow a out
   | t => t
 
